@@ -43,7 +43,10 @@ SameBoard(e, root) ==
 ExactWritesTrue(e) ==
   \A i \in 1..Len(e.writes) :
      LET wr == e.writes[i] IN
-     (wr.bound = 0 /\ wr.known = 1 /\ tree.mindepth = 0 /\ Len(wr.path) + wr.depth <= tree.depth)
+     \* judged where the dump carries what the reference needs: any node of a static-leaf dump down to
+     \* the stored depth; the depth-0 entries of the leaves of a quiescence dump (their subtrees are dumped)
+     (wr.bound = 0 /\ wr.known = 1 /\ (\/ (tree.mindepth = 0 /\ Len(wr.path) + wr.depth <= tree.depth)
+                                        \/ (tree.cfg = "qs" /\ wr.depth = 0 /\ Len(wr.path) = tree.depth)))
         => LET n == NodeAt(tree.root, wr.path, 1) IN
            n.h = wr.h /\ Norm(wr.score) = MM(tree.cfg, n, wr.depth)
 
